@@ -79,11 +79,11 @@ func registerExpertiseLevelOption() {
 func updateExpertiseLevel() {
 	// get value
 	value := expertiseLevelOption.activeFallbackValue
-	if expertiseLevelOption.activeValue != nil {
-		value = expertiseLevelOption.activeValue
-	}
 	if expertiseLevelOption.activeDefaultValue != nil {
 		value = expertiseLevelOption.activeDefaultValue
+	}
+	if expertiseLevelOption.activeValue != nil {
+		value = expertiseLevelOption.activeValue
 	}
 	// set atomic value
 	switch value.stringVal {
